@@ -4,7 +4,7 @@
 cd "$(dirname "$0")/.."
 for d in seeded/*/; do
   id=$(basename $d)
-  prop=$(python3 -c "import json;print(json.load(open('$d/meta.json'))['property'])")
+  prop=$(python3 -c "import json;m=json.load(open('$d/meta.json'));print(m.get('check',m['property']))")
   out=$(python3 tools/seedtest.py $d/patch.diff $prop 2>&1)
   echo "$id $(printf "%s" "$out" | python3 -c "
 import json,sys
